@@ -824,6 +824,214 @@ func genDial(id string, r *hx.RNG) dialCase {
 	return dc
 }
 
+// ---------- real time: late replies, callers that give up ----------
+
+// timedWorld: a UDP server that sends its reply (flag byte b2, no extra body)
+// d1 after the first datagram of a query, and a TCP server that answers every
+// query d2 after reading it, one query at a time per connection, with a reply
+// derived from that query (id, question, 4 bytes generated from the id).
+type timedWorld struct {
+	s      *session
+	b2     int
+	d1, d2 time.Duration
+	mu     sync.Mutex
+	seenID map[int]bool
+}
+
+func newTimedWorld(b2 int, d1, d2 time.Duration) (*timedWorld, error) {
+	s, err := newSession(true)
+	if err != nil {
+		return nil, err
+	}
+	w := &timedWorld{s: s, b2: b2, d1: d1, d2: d2, seenID: map[int]bool{}}
+	s.wg.Add(2)
+	go w.serveUDP()
+	go w.serveTCP()
+	return w, nil
+}
+
+func (w *timedWorld) serveUDP() {
+	defer w.s.wg.Done()
+	buf := make([]byte, 65536)
+	for {
+		n, addr, err := w.s.uc.ReadFromUDP(buf)
+		if err != nil {
+			return
+		}
+		if n < 12 {
+			continue
+		}
+		q := append([]byte(nil), buf[:n]...)
+		w.mu.Lock()
+		dup := w.seenID[wireID(q)]
+		w.seenID[wireID(q)] = true
+		w.mu.Unlock()
+		if dup { // a re-send: the reply to the first datagram is on its way
+			continue
+		}
+		r := rawMsg(wireID(q), w.b2, 0x80, 0, q[12:])
+		if w.d1 == 0 {
+			w.s.uc.WriteToUDP(r, addr)
+		} else {
+			time.AfterFunc(w.d1, func() { w.s.uc.WriteToUDP(r, addr) })
+		}
+	}
+}
+
+func (w *timedWorld) serveTCP() {
+	defer w.s.wg.Done()
+	for {
+		c, err := w.s.tl.Accept()
+		if err != nil {
+			return
+		}
+		w.s.mu.Lock()
+		w.s.conns = append(w.s.conns, c)
+		w.s.mu.Unlock()
+		w.s.wg.Add(1)
+		go func() {
+			defer w.s.wg.Done()
+			defer c.Close()
+			for {
+				var hdr [2]byte
+				if _, err := io.ReadFull(c, hdr[:]); err != nil {
+					return
+				}
+				q := make([]byte, binary.BigEndian.Uint16(hdr[:]))
+				if _, err := io.ReadFull(c, q); err != nil || len(q) < 12 {
+					return
+				}
+				time.Sleep(w.d2)
+				r := rawMsg(wireID(q), 0x84, 0x80, 1, q[12:], hx.GenBytes(4, uint64(wireID(q))))
+				frame := make([]byte, 2+len(r))
+				binary.BigEndian.PutUint16(frame, uint16(len(r)))
+				copy(frame[2:], r)
+				if _, err := c.Write(frame); err != nil {
+					return
+				}
+			}
+		}()
+	}
+}
+
+type timedQ struct {
+	cid, qn int
+	qseed   uint64
+}
+
+func (t timedQ) bytes() []byte { return rawMsg(t.cid, 1, 0, 0, hx.GenBytes(t.qn, t.qseed)) }
+func (t timedQ) coq() string   { return hx.Tuple(hx.Ni(t.cid), hx.Ni(t.qn), hx.N(t.qseed)) }
+
+func exchangeOres(u upstream.Upstream, q []byte, deadline time.Duration) (string, string) {
+	ctx, cancel := context.WithTimeout(context.Background(), deadline)
+	defer cancel()
+	var r *[]byte
+	var err error
+	t0 := time.Now()
+	p := hx.Recover(func() { r, err = u.ExchangeContext(ctx, q) })
+	el := time.Since(t0).Round(10 * time.Millisecond)
+	switch {
+	case p != nil:
+		return "OPanic", fmt.Sprintf("panic after %v", el)
+	case err != nil || r == nil:
+		return "OErr", fmt.Sprintf("error after %v: %v", el, err)
+	}
+	defer pool.ReleaseBuf(r)
+	b := *r
+	return hx.App("ORep", hx.Ni(len(b)), hx.N(hx.Sum(b))),
+		fmt.Sprintf("reply after %v: id=%#04x byte2=%d ancount=%d len=%d", el, wireID(b), b[2], binary.BigEndian.Uint16(b[6:]), len(b))
+}
+
+func runDelay(id string, q timedQ, b2 int, d1, d2, deadline time.Duration) (*sessResult, error) {
+	w, err := newTimedWorld(b2, d1, d2)
+	if err != nil {
+		return nil, err
+	}
+	defer w.s.close()
+	u, err := upstream.NewUpstream(fmt.Sprintf("udp://127.0.0.1:%d", w.s.port), upstream.Opt{})
+	if err != nil {
+		return nil, err
+	}
+	defer u.Close()
+	res, desc := exchangeOres(u, q.bytes(), deadline)
+	ms := func(d time.Duration) string { return hx.Ni(int(d / time.Millisecond)) }
+	return &sessResult{kind: "timed:delay", c: hx.Case{
+		ID:  id,
+		Coq: hx.App("CDelay", ms(d1), ms(d2), ms(deadline), hx.Ni(q.cid), hx.Ni(q.qn), hx.N(q.qseed), hx.Ni(b2), res),
+		Desc: map[string]any{"kind": "delay", "udp_reply_after_ms": int(d1 / time.Millisecond), "tcp_reply_after_ms": int(d2 / time.Millisecond),
+			"caller_deadline_ms": int(deadline / time.Millisecond), "udp_tc": b2&2 != 0, "result": desc},
+		FKey: "timed:delay",
+	}}, nil
+}
+
+func runAbandon(id string, a, b timedQ, dlA, delay, dlB time.Duration) (*sessResult, error) {
+	w, err := newTimedWorld(0x82, 0, delay)
+	if err != nil {
+		return nil, err
+	}
+	defer w.s.close()
+	u, err := upstream.NewUpstream(fmt.Sprintf("udp://127.0.0.1:%d", w.s.port), upstream.Opt{})
+	if err != nil {
+		return nil, err
+	}
+	defer u.Close()
+	resA, descA := exchangeOres(u, a.bytes(), dlA)
+	resB, descB := exchangeOres(u, b.bytes(), dlB)
+	ms := func(d time.Duration) string { return hx.Ni(int(d / time.Millisecond)) }
+	return &sessResult{kind: "timed:abandon", c: hx.Case{
+		ID:  id,
+		Coq: hx.App("CAbandon", a.coq(), b.coq(), ms(dlA), ms(delay), ms(dlB), resA, resB),
+		Desc: map[string]any{"kind": "abandon", "a_id": a.cid, "b_id": b.cid, "a_deadline_ms": int(dlA / time.Millisecond),
+			"tcp_reply_after_ms": int(delay / time.Millisecond), "b_deadline_ms": int(dlB / time.Millisecond), "a_result": descA, "b_result": descB},
+		FKey: "timed:abandon",
+	}}, nil
+}
+
+type timedJob struct {
+	id  string
+	run func() (*sessResult, error)
+	res *sessResult
+	err error
+}
+
+func timedJobs(o *hx.Opts, quick bool) []*timedJob {
+	var out []*timedJob
+	const callerDeadline = 15 * time.Second
+	delays := [][2]time.Duration{{0, 3500 * time.Millisecond}, {2600 * time.Millisecond, time.Second}, {1200 * time.Millisecond, 2500 * time.Millisecond}}
+	if !quick {
+		delays = append(delays, [2]time.Duration{2900 * time.Millisecond, 300 * time.Millisecond}, [2]time.Duration{300 * time.Millisecond, 2900 * time.Millisecond},
+			[2]time.Duration{3200 * time.Millisecond, 0}, [2]time.Duration{0, 0})
+	}
+	for i, d := range delays {
+		id := fmt.Sprintf("timed:delay:%d", i)
+		if !o.Want(id) {
+			continue
+		}
+		r := hx.NewRNG(o.Seed, id)
+		q := timedQ{cid: r.Intn(65536), qn: hx.Pick(r, []int{5, 17, 30}), qseed: r.U64() % 100000}
+		b2 := 0x82 | r.Intn(256)
+		d := d
+		out = append(out, &timedJob{id: id, run: func() (*sessResult, error) { return runDelay(id, q, b2, d[0], d[1], callerDeadline) }})
+	}
+	na := 4
+	if !quick {
+		na = 16
+	}
+	for i := 0; i < na; i++ {
+		id := fmt.Sprintf("timed:abandon:%d", i)
+		if !o.Want(id) {
+			continue
+		}
+		r := hx.NewRNG(o.Seed, id)
+		a := timedQ{cid: r.Intn(65536), qn: hx.Pick(r, []int{5, 17, 30}), qseed: r.U64() % 100000}
+		b := timedQ{cid: (a.cid + 1 + r.Intn(65000)) % 65536, qn: hx.Pick(r, []int{5, 17, 30}), qseed: r.U64() % 100000}
+		dlA := time.Duration(hx.Pick(r, []int{100, 150, 200})) * time.Millisecond
+		delay := time.Duration(hx.Pick(r, []int{400, 500})) * time.Millisecond
+		out = append(out, &timedJob{id: id, run: func() (*sessResult, error) { return runAbandon(id, a, b, dlA, delay, 5*time.Second) }})
+	}
+	return out
+}
+
 // ---------- generators ----------
 
 var udpExtra = []int{0, 0, 1, 10, 60, 300}
@@ -1004,6 +1212,17 @@ func main() {
 	defer w.Close()
 	quick := o.Tier != "thorough"
 
+	// (d) the cases that need real time run in the background of everything else
+	tjobs := timedJobs(o, quick)
+	var twg sync.WaitGroup
+	for _, j := range tjobs {
+		twg.Add(1)
+		go func(j *timedJob) {
+			defer twg.Done()
+			j.res, j.err = j.run()
+		}(j)
+	}
+
 	// (a) msgTruncated on raw bytes: every value of byte 2 at the lengths where it matters
 	all := []int{3, 12}
 	some := []int{0, 1, 2, 4, 11, 13, 512}
@@ -1112,6 +1331,15 @@ func main() {
 		}(i)
 	}
 	wg.Wait()
+	twg.Wait()
+	for _, j := range tjobs {
+		if j.err != nil {
+			fmt.Fprintf(os.Stderr, "c17: timed case %s could not be set up: %v\n", j.id, j.err)
+			w.Close()
+			os.Exit(3)
+		}
+		w.Emit(j.res.kind, j.res.c)
+	}
 	for i := range jobs {
 		if errs[i] != nil {
 			fmt.Fprintf(os.Stderr, "c17: session %s could not be set up: %v\n", jobs[i].id, errs[i])
